@@ -492,10 +492,39 @@ def run_noniter(case):
   return R(None, True, x)
 
 
+# ------------------------------------------------------------ calling routes
+from ..routes import routes_agree
+
+
+def route_table():
+  T = OrderedDict()
+  c = lambda v: (lambda: v)
+  T["Stream.take"] = (lambda *a, **k: Stream([1, 2, 3, 4]).take(*a, **k), [("n", c(3)), ("constructor", c(tuple))], repr)
+  T["Stream.peek"] = (lambda *a, **k: Stream([1, 2, 3, 4]).peek(*a, **k), [("n", c(3)), ("constructor", c(tuple))], repr)
+  T["Stream.skip"] = (lambda *a, **k: list(Stream([1, 2, 3, 4]).skip(*a, **k)), [("n", c(3))], repr)
+  T["Stream.limit"] = (lambda *a, **k: list(Stream([1, 2, 3, 4]).limit(*a, **k)), [("n", c(3))], repr)
+  T["thub"] = (lambda *a, **k: [list(Stream(h)) for h in [thub(*a, **k)] * 2], [("data", lambda: [1, 2, 3]), ("n", c(2))], repr)
+  from audiolazy import tee
+  T["tee"] = (lambda *a, **k: [list(t) for t in tee(*a, **k)], [("data", lambda: [1, 2, 3]), ("n", c(3))], repr)
+  return T
+
+
+def gen_routes(run):
+  for name in route_table():
+    yield (name,)
+
+
+def run_routes(case):
+  f, spec, canon = route_table()[case[0]]
+  return routes_agree(case[0], f, spec, canon)
+
+
 KINDS = OrderedDict([
   ("hist", Kind(None, run_hist, chunk=16, timeout=30,
                 rule="one case = one state (history); every enabled letter applied from it, then all handles drained")),
   ("noniter", Kind(gen_noniter, run_noniter, rule="thub(x, n) is x for non-iterables")),
+  ("call-routes", Kind(gen_routes, run_routes, chunk=1,
+                       rule="each function with every documented parameter set: all positional / all keyword / every split must agree")),
 ])
 
 
